@@ -1,3 +1,4 @@
+// build: no-xen
 //! Suites C05 / C16 (one generator + executor, registered under both names): dirty-bitmap tracking.
 //!
 //! case:  hostmod nregions [start,size,ps,flavour]*  step*      (each step one list token)
